@@ -16,6 +16,7 @@ pub mod symbols;
 pub mod text;
 pub mod wire;
 pub mod blockwire;
+pub mod convert;
 pub mod robust;
 pub mod procrun;
 pub mod robust_model;
